@@ -302,6 +302,13 @@ func (t *tracer) trace(v ssa.Value, ctx []callCtx, depth int, prefix string) {
 	case *ssa.Slice:
 		t.trace(x.X, ctx, depth+1, prefix)
 	case *ssa.Alloc:
+		// &local where local holds a copy of a value (out := *s; return &out): a pointer to that value
+		if sts := storesTo(x); len(sts) > 0 {
+			for _, st := range sts {
+				t.trace(st.Val, ctx, depth+1, prefix)
+			}
+			return
+		}
 		t.emit(prefix, "alloc")
 	case *ssa.MakeMap:
 		t.emit(prefix, "fresh-map")
@@ -357,7 +364,9 @@ func (t *tracer) traceCall(c *ssa.Call, resIdx int, ctx []callCtx, depth int, pr
 
 func (t *tracer) traceInto(c *ssa.Call, g *ssa.Function, resIdx int, ctx []callCtx, depth int, prefix string) {
 	e := t.e
-	if isPtrHelper(g) && len(c.Call.Args) == 1 {
+	// pointer helpers of the SDKs (aws.String, aws.StringValue, …) are transparent by signature; a package-local function
+	// of that shape is looked into like any other (it may do more than take an address)
+	if isPtrHelper(g) && len(c.Call.Args) == 1 && (e.fnRole(g) == "" || g.Blocks == nil) {
 		t.trace(c.Call.Args[0], ctx, depth+1, prefix)
 		return
 	}
